@@ -55,7 +55,7 @@ def _scaled(draw, free):
     prices = {"p0": draw(gen.price_series(g["T"])), "p1": draw(gen.price_series(g["T"]))}
     cx = gen.Cx(g, nodes, prices)
     cls = draw(st.sampled_from(["storage", "storage", "simple", "simple", "contract", "transport", "multi", "exttransport",
-                                "orderbook"]))
+                                "orderbook", "orderbook"]))
     if cls in ("transport", "exttransport") and nn < 2:
         cx.nodes.append("n1")
     a = gen.a_scaled(draw, cx, "sc", base_cls="transport" if cls == "exttransport" else cls)
